@@ -1374,6 +1374,31 @@ def opc12_block_walk_table(ctx: Ctx) -> None:
         ctx.R.undecided("OPC-12", f"{len(loops)} `while todo` loops found (1 expected)")
         return
     loop = loops[0]
+    # canonical names for the walk's variables (a helper inlined by the normaliser, or a rename, keeps the roles)
+    import copy as _copy
+    ren: Dict[str, str] = {}
+    for a in loop.body:
+        if isinstance(a, ast.Assign) and len(a.targets) == 1 and isinstance(a.targets[0], ast.Tuple) and len(a.targets[0].elts) == 2 and isinstance(a.value, ast.Call) \
+                and norm(a.value.func) in ("todo.popleft", "todo.pop") and all(isinstance(x, ast.Name) for x in a.targets[0].elts):
+            ren[a.targets[0].elts[0].id] = "offs"
+            ren[a.targets[0].elts[1].id] = "stack"
+    inv = {v_: k_ for k_, v_ in ren.items()}
+    for a in loop.body:
+        if isinstance(a, ast.Assign) and len(a.targets) == 1 and isinstance(a.targets[0], ast.Name) and isinstance(a.value, ast.Subscript) and norm(a.value.value) == "code" \
+                and inv.get("offs", "offs") in norm(a.value.slice):
+            ren[a.targets[0].id] = "arg"
+    for a in ast.walk(fn):
+        if isinstance(a, ast.Assign) and len(a.targets) == 1 and isinstance(a.targets[0], ast.Name) and isinstance(a.value, ast.IfExp) and "version_info" in norm(a.value.test) \
+                and sorted(norm(x) for x in (a.value.body, a.value.orelse)) == ["1", "2"]:
+            ren[a.targets[0].id] = "jmul"
+    if set(ren.values()) != {"offs", "stack", "arg", "jmul"}:
+        ctx.R.undecided("OPC-12", f"the walk's variables were not all recognised (found {sorted(ren.values())})")
+        return
+    if any(k_ != v_ for k_, v_ in ren.items()):
+        class _RN(ast.NodeTransformer):
+            def visit_Name(self, n_: ast.Name):
+                return ast.copy_location(ast.Name(id=ren.get(n_.id, n_.id), ctx=n_.ctx), n_)
+        loop = ast.fix_missing_locations(_RN().visit(_copy.deepcopy(loop)))
     VAL = {"offs": 100, "arg": 7, "jmul": 3}
 
     def num(e: ast.AST) -> Optional[int]:
@@ -1402,10 +1427,12 @@ def opc12_block_walk_table(ctx: Ctx) -> None:
 
     def run(assign):
         st = Stepper(assign)
-        st.opaque = {"arg"}
+        st.opaque = {"arg", "stack"}
         st.on_loop = lambda l_, env_: None      # the EXTENDED_ARG accumulation is decided separately below
         k, v = st.run(loop.body, {})
-        depth = 0
+        # the block stack may be mutated in place (seen by every alias of that list object) or rebound to a new list
+        cur = 0
+        depths = {0: 0}
         out = []
         for ef in st.effects:
             try:
@@ -1425,27 +1452,57 @@ def opc12_block_walk_table(ctx: Ctx) -> None:
                 if not copyform and norm(stk) != "stack":
                     out.append(("?", t[:50]))
                 else:
-                    out.append(("queue", num(tgt), depth if copyform else "alias"))
+                    out.append(("queue", num(tgt), depths[cur] if copyform else ("obj", cur)))
+                    if not copyform and num(tgt) != VAL["offs"] + 2:
+                        aliased_jumps.append(t[:60])
             elif isinstance(e, ast.Call) and norm(e.func) == "stack.append" and len(e.args) == 1:
-                depth += 1
+                depths[cur] += 1
                 out.append(("push", num(e.args[0])))
             elif isinstance(e, ast.Call) and norm(e.func) == "stack.pop" and not e.args:
-                depth -= 1
+                depths[cur] -= 1
                 out.append(("pop",))
+            elif isinstance(e, ast.Assign) and len(e.targets) == 1 and norm(e.targets[0]) == "stack":
+                v_ = e.value
+                new_obj = len(depths)
+                if isinstance(v_, ast.BinOp) and isinstance(v_.op, ast.Add) and norm(v_.left) in ("stack", "stack[:]", "list(stack)") and isinstance(v_.right, ast.List) and len(v_.right.elts) == 1:
+                    depths[new_obj] = depths[cur] + 1
+                    cur = new_obj
+                    out.append(("push", num(v_.right.elts[0])))
+                elif isinstance(v_, ast.List) and len(v_.elts) == 2 and isinstance(v_.elts[0], ast.Starred) and norm(v_.elts[0].value) == "stack":
+                    depths[new_obj] = depths[cur] + 1
+                    cur = new_obj
+                    out.append(("push", num(v_.elts[1])))
+                elif norm(v_) in ("stack[:]", "stack.copy()", "list(stack)", "[*stack]"):
+                    depths[new_obj] = depths[cur]
+                    cur = new_obj
+                elif norm(v_) in ("stack[:-1]", "stack[:len(stack) - 1]"):
+                    depths[new_obj] = depths[cur] - 1
+                    cur = new_obj
+                    out.append(("pop",))
+                else:
+                    out.append(("?", t[:50]))
             elif isinstance(e, (ast.Assign, ast.AnnAssign)) or t.startswith(("arg =", "(offs, stack) =", "offs, stack =")) or isinstance(e, ast.AugAssign):
                 continue      # reading the queue entry / the instruction's argument
             else:
                 out.append(("?", t[:50]))
-        out = [(x[0], x[1], depth if x[2] == "alias" else x[2]) if x[0] == "queue" else x for x in out]
+        out = [(x[0], x[1], depths[x[2][1]] if isinstance(x[2], tuple) else x[2]) if x[0] == "queue" else x for x in out]
         res = k
         if k == "return" and v is not None:
             res = "return " + ("stack[-1]" if isinstance(v, ast.Call) and any(k_.arg == "cleanup_offset" and norm(k_.value) == "stack[-1]" for k_ in v.keywords) else norm(v)[:40])
         return tuple(out), res
 
+    aliased_jumps: List[str] = []
     try:
         atoms, rows = enumerate_table(run, [], max_atoms=9)
     except EUnsupported as ex:
         ctx.R.undecided("OPC-12", f"the walk's loop body is outside the step interpreter: {ex}")
+        return
+    inplace = [c for c in ast.walk(loop) if (isinstance(c, ast.Call) and isinstance(c.func, ast.Attribute) and norm(c.func.value) == "stack" and c.func.attr in ("append", "pop", "insert", "extend", "clear", "remove"))
+               or (isinstance(c, ast.AugAssign) and norm(c.target) == "stack") or (isinstance(c, ast.Delete) and any(norm(getattr(t_, "value", t_)) == "stack" for t_ in c.targets))]
+    if aliased_jumps and inplace:
+        ctx.R.fail("OPC-12", mod, loops[0], f"a jump target is queued with the block-stack list itself (`{aliased_jumps[0]}`) while the walk also changes that list in place (`{norm(inplace[0])[:40]}`): the path that "
+                   "falls through keeps using the same list object, so a POP_BLOCK or SETUP_* it meets later changes the stack the queued branch will start from; the two arms of a conditional jump "
+                   "share one block stack and the handler found for a POP_BLOCK is another block's (or the list is empty: IndexError)", construct="block walk: jump target queued with an aliased block stack")
         return
     roles = {a: role(a) for a in atoms}
     if None in roles.values() or len(set(roles.values())) != len(roles):
@@ -1490,7 +1547,7 @@ def opc12_block_walk_table(ctx: Ctx) -> None:
     else:
         r, effects, res, want_e, want_r = bad
         shown = sorted(k for k, v in r.items() if v)
-        ctx.R.fail("OPC-12", mod, loop, f"block walk (CPython 3.9 / 3.10), instruction that is {shown or 'none of the tested kinds'} with offs={o}, arg={a_}, jump multiplier {j}: the iteration does {list(effects)} and ends "
+        ctx.R.fail("OPC-12", mod, loops[0], f"block walk (CPython 3.9 / 3.10), instruction that is {shown or 'none of the tested kinds'} with offs={o}, arg={a_}, jump multiplier {j}: the iteration does {list(effects)} and ends "
                    f"`{res}`; required {list(want_e)} and `{want_r}` (queue(target, depth of the block stack handed on), push(handler address)): the handler found for a POP_BLOCK -- i.e. which with-block "
                    "a normal-path __exit__ belongs to -- is wrong or never found on these interpreters", construct=f"block walk, case {shown}")
     # the instruction argument with EXTENDED_ARG prefixes: evaluated on [EXTENDED_ARG 1, EXTENDED_ARG 2, <op> 3]
@@ -1710,20 +1767,45 @@ def opc11_step_semantics(ctx: Ctx) -> None:
             yield "no operand effect", dict(argval=None, arg=0, argrepr=""), S, S
 
     n_ok = 0
+    CALLS = ("CALL_FUNCTION", "CALL_METHOD", "CALL")
+    uses_dis = any(isinstance(x, ast.Attribute) and norm(x) == "dis.stack_effect" for x in ast.walk(loop))
+    jobs = []
     for op_ in sorted(names):
         cs = list(cases(op_))
         if not cs:
             ctx.R.ok("OPC-11", f"{op_}: no reference effect in the table", "not compared")
             continue
-        for desc, fields, init, want in cs:
+        if op_ in CALLS and uses_dis:
+            # a decoder that asks dis.stack_effect is told different things by different interpreters: one evaluation per interpreter that has the opcode
+            for v in sorted(ctx.V.all, key=lambda s_: tuple(map(int, s_.split(".")))):
+                if op_ in ctx.F["interp"][v]["opmap"]:
+                    jobs.extend((op_, v, c_) for c_ in cs)
+        else:
+            jobs.extend((op_, None, c_) for c_ in cs)
+    for op_, ver_, (desc, fields, init, want) in jobs:
+        if True:
+            if ver_ is not None:
+                desc = f"{desc}, CPython {ver_}"
             counter = [0]
 
             def fresh() -> str:
                 counter[0] += 1
                 return f"<t{counter[0]}>"
-            insn = SimpleNamespace(opname=op_, offset=0, starts_line=None, is_jump_target=False, opcode=0, **fields)
+            insn = SimpleNamespace(opname=op_, offset=0, starts_line=None, is_jump_target=False, opcode=(ctx.F["interp"][ver_]["opmap"][op_] if ver_ else 0), **fields)
             stack = list(init)
-            m = Mini({"insns": [insn, insn], "idx": 0, "insn": insn, "True": True}, dict(helpers), {nt.name: fresh})
+            env0 = {"insns": [insn, insn], "idx": 0, "insn": insn, "True": True}
+            if ver_ is not None:
+                eff = ctx.F["interp"][ver_]["call_stack_effects"]
+                omap = ctx.F["interp"][ver_]["opmap"]
+
+                def stack_effect(opcode, arg=None, _eff=eff, _omap=omap):
+                    for nm_, code_ in _omap.items():
+                        if code_ == opcode and nm_ in _eff and isinstance(arg, int) and 0 <= arg < len(_eff[nm_]):
+                            return _eff[nm_][arg]
+                    raise Unsupported("dis.stack_effect of an opcode outside the facts")
+                env0["dis"] = SimpleNamespace(stack_effect=stack_effect, opmap=None)
+                env0["sys"] = SimpleNamespace(version_info=tuple(ctx.F["interp"][ver_]["version_info"]))
+            m = Mini(env0, dict(helpers), {nt.name: fresh})
             try:
                 # the decoder's per-target state (declared before the loop) starts as the code initialises it; the operand list is ours
                 for pst in nt.body:
